@@ -509,10 +509,17 @@ def float_binop(op, a, b):
         if not z3.is_rational_value(z3.simplify(rb)):
             e.stats['nonlinear'] += 1
         return SymFloat(r=fl_of(ra / rb))
-    if op == '//':
-        # floor(a/b) computed exactly in Python for floats (fmod based); modelled on reals
+    if op in ('//', '%'):
+        # float floor-division and modulo by a constant divisor: Python computes them from fmod, which is exact;
+        # q = floor(a/b) is an integer (kept exact while it stays below 2^53), a % b = a - b*q is exact as well
+        if not z3.is_rational_value(z3.simplify(rb)):
+            raise Unmodelled('float %s by a symbolic divisor' % op)
         q = z3.ToInt(ra / rb)
-        return SymFloat(r=fl_of(z3.ToReal(q)))
+        if not SymBool(z3.And(q <= TWO53, q >= -TWO53)):
+            raise Unmodelled('float %s with a quotient beyond 2^53' % op)
+        if op == '//':
+            return SymFloat(iz=z3.simplify(q))
+        return SymFloat(r=z3.simplify(ra - rb * z3.ToReal(q)))
     raise Unmodelled('float op %s' % op)
 
 
